@@ -1411,9 +1411,10 @@ Print Assumptions C02_join_nonfile_Canon.
 
 (* O.5  C02_statement4 restricted to everything except the file scheme: histories of parse (no base, non-file scheme,
    ANY encoding override) ;; joins with EVERY reference that has no scheme or a non-file scheme (any override; a
-   reference is of one of three kinds: C02_ref_trichotomy) ;; every operation of the setter model outside known_step3
-   ;; query_pairs_mut sessions.  Still missing for C02_statement4: the file scheme only (class (v): parse of file
-   inputs, file-scheme references, and then every join / mutator on the file records so obtained). *)
+   reference is of one of three kinds: C02_ref_trichotomy) ;; joins of ANY Reachable4 record (file records included)
+   with a base-ignoring absolute reference ;; every operation of the setter model outside known_step3 ;;
+   query_pairs_mut sessions.  Still missing for C02_statement4: file RESULTS only (class (v): parse of file inputs,
+   file-scheme references, scheme-less references against file bases, mutators / query_pairs_mut on file records). *)
 Theorem C02_reach_partial6 : forall dbg hp hpo hd, HostOK2 hp hpo hd -> host_nonempty hp hpo -> forall u,
   ReachC6 dbg hp hpo hd u -> Fixpoint_of_reparse dbg hp hpo hd u /\ wf_b u = true /\ ascii (ser u).
 Proof. exact reach_partial6. Qed.
@@ -1468,6 +1469,13 @@ Example C02_reach_partial6_inhabited :
                  && file_input (B "file:x") && negb (nonfile_input (B "file:x"))
      | _ => false end = true.
 Proof. exact reach6_example. Qed.
+
+Example C02_reach_partial6_filebase :
+  match m_join "file:///a/b" "https:\\x/y z" with
+  | Some u => list_eqb (ser u) (B "https://x/y%20z") && m_fix u | None => false end = true
+  /\ match parse_url true mhp host_parse_opaque host_display None None (B "file:///a/b") with
+     | POk bu => is_file bu && abs_ref bu (B "https:\\x/y z") && negb (Known_file_drive bu) | _ => false end = true.
+Proof. exact reach6_example_filebase. Qed.
 
 (* ---------- F. every excluded class contains a history that is not a fixpoint ---------- *)
 Theorem C02_F_C03_5_refuted :
